@@ -11,7 +11,7 @@ use crate::util::buf::Buf2;
 use core::cmp::Ordering;
 type F = core::primitive::f32;
 
-const W: usize = 4;
+const W: usize = 3;
 const H: usize = 2;
 const NEW_COL: u32 = 0x04010203; // rgba(1,2,3,4).to_argb_u32()
 
@@ -65,7 +65,7 @@ fn scanline(s: &Setup) -> Scanline<()> {
 
 // @ob props=C02,C06,C07 tier=quick kind=B cfg=core-std timeout=1800
 // @fn <Framebuf<Col,Dep> as Target>::rasterize ; Context::depth_test ; Scanline::fragments
-// @bound one framebuffer row of 4 pixels (every span 0 <= x0,x1 <= 4 in either order, so every span length <= 4); complete in the depth values, buffer contents, all 4 depth predicates x color_write x depth_write x discarding/non-discarding shader
+// @bound one framebuffer row of 3 pixels (every span 0 <= x0,x1 <= 3 in either order, so every span length <= 3); complete in the depth values, buffer contents, all 4 depth predicates x color_write x depth_write x discarding/non-discarding shader
 // @clause per-pixel update of the colour+depth target: given span ends <= width it never panics; cells outside [x0,x1) keep colour and depth bit for bit; inside, the fragment passes iff the configured predicate holds (none: always; Less: new reciprocal depth larger), colour is written iff pass, shader returned a colour and color_write, depth iff pass, shader returned a colour and depth_write; with test and writes on z' = max(z, z_f) and the colour is the fragment's iff z_f > z; reversed spans are empty; Throughput.i = span length, .o = colour writes; finite depths stay non-NaN
 #[cfg(not(verif_skip_target_framebuf_update))]
 #[kani::proof]
@@ -86,7 +86,7 @@ fn target_framebuf_update() {
     let discard = s.discard;
     let fs = |_f: Frag<()>| -> Option<Color4> { if discard { None } else { Some(rgba(1, 2, 3, 4)) } };
     let io = fb.rasterize(scanline(&s), &fs, &ctx);
-    kani::cover!(s.x1 >= s.x0 + 3);
+    kani::cover!(s.x1 >= s.x0 + 2);
     kani::cover!(s.x1 < s.x0);
     let len = if s.x1 >= s.x0 { s.x1 - s.x0 } else { 0 };
     assert!(io.i == len);
@@ -127,7 +127,7 @@ fn target_framebuf_update() {
 
 // @ob props=C02,C06 tier=quick kind=B cfg=core-std timeout=1800
 // @fn <Framebuf<Col,Dep> as Target>::rasterize
-// @bound framebuffer 4x2, every row and every span; default context (depth test Less, both writes on), non-discarding shader
+// @bound framebuffer 3x2, every row and every span; default context (depth test Less, both writes on), non-discarding shader
 // @clause the scanline's row is the only row written: every cell of the other row keeps colour and depth, cells of the addressed row outside [x0,x1) too, and no row/span inside the buffer makes it panic
 #[cfg(not(verif_skip_target_framebuf_rows))]
 #[kani::proof]
@@ -162,7 +162,7 @@ fn target_framebuf_rows() {
 
 // @ob props=C02,C07 tier=quick kind=B cfg=core-std timeout=1800
 // @fn <Buf as Target>::rasterize ; Scanline::fragments
-// @bound colour buffer 4x2 (every row, every span 0 <= x0,x1 <= 4 in either order); complete in the contents and flags
+// @bound colour buffer 3x2 (every row, every span 0 <= x0,x1 <= 3 in either order); complete in the contents and flags
 // @clause per-pixel update of the colour-only target: never panics for in-bounds rows/spans; cells outside [x0,x1) of the row unchanged; inside, colour written iff the shader returned a colour and color_write (no depth test); Throughput.i = span length, .o = colour writes
 #[cfg(not(verif_skip_target_colorbuf_update))]
 #[kani::proof]
@@ -184,7 +184,7 @@ fn target_colorbuf_update() {
     let discard = s.discard;
     let fs = |_f: Frag<()>| -> Option<Color4> { if discard { None } else { Some(rgba(1, 2, 3, 4)) } };
     let io = cb.rasterize(scanline(&s), &fs, &ctx);
-    kani::cover!(s.x1 >= s.x0 + 3);
+    kani::cover!(s.x1 >= s.x0 + 2);
     let len = if s.x1 >= s.x0 { s.x1 - s.x0 } else { 0 };
     assert!(io.i == len);
     let mut writes = 0usize;
